@@ -359,7 +359,7 @@ pub struct PatchApplyResult {
 
 #[cfg(kani)]
 #[path = "/verif/harness/rip-workspace/lib.rs"]
-mod verif_kani;
+pub mod verif_kani;
 
 #[cfg(test)]
 mod tests {
